@@ -44,9 +44,13 @@ pub enum OpK {
     Search,
     /// delete through the batch path (also used by the filtered deletes)
     BatchDelete,
+    /// overwrite with the id's FIXED vector (version 999 in the vector) and a unique version in
+    /// the metadata only: two such writes are indistinguishable by vector digest
+    WriteSameVec,
 }
 
-const OPS: &[OpK] = &[OpK::Write, OpK::Delete, OpK::Get, OpK::GetWithMeta, OpK::Bulk, OpK::MetaOnly, OpK::Exists, OpK::Drain, OpK::Search, OpK::BatchDelete];
+const OPS: &[OpK] = &[OpK::Write, OpK::Delete, OpK::Get, OpK::GetWithMeta, OpK::Bulk, OpK::MetaOnly, OpK::Exists, OpK::Drain, OpK::Search, OpK::BatchDelete, OpK::WriteSameVec];
+const SAME: u32 = 999;
 
 #[derive(Clone, Debug, Serialize, Deserialize)]
 pub struct Case {
@@ -140,6 +144,11 @@ fn do_op(e: &kyrodb_engine::TieredEngine, t: &sched::Tctx, op: OpK, sel: u8, ver
         OpK::Write => {
             call("write");
             let r = e.insert(id, vv(id, ver), mm(ver));
+            ret(json!({"ok": r.is_ok(), "err": r.err().map(|e| format!("{:#}", e))}));
+        }
+        OpK::WriteSameVec => {
+            call("write");
+            let r = e.insert(id, vv(id, SAME), mm(ver));
             ret(json!({"ok": r.is_ok(), "err": r.err().map(|e| format!("{:#}", e))}));
         }
         OpK::Delete => {
@@ -328,10 +337,15 @@ fn judge(case: &Case, out: &sched::RunOut, t: &Tiered, rep: &mut CaseReport) -> 
     let mut written: HashMap<u64, HashSet<u32>> = HashMap::new();
     written.entry(HOT).or_default().insert(0);
     written.entry(COLD).or_default().insert(0);
+    let mut samevec: HashMap<u64, HashSet<u32>> = HashMap::new();
     for (tid, ops) in case.threads.iter().enumerate() {
         for (n, (op, sel)) in ops.iter().enumerate() {
             if *op == OpK::Write {
                 written.entry(idof(*sel)).or_default().insert(1 + (tid as u32) * 10 + n as u32);
+            }
+            if *op == OpK::WriteSameVec {
+                written.entry(idof(*sel)).or_default().insert(1 + (tid as u32) * 10 + n as u32);
+                samevec.entry(idof(*sel)).or_default().insert(1 + (tid as u32) * 10 + n as u32);
             }
         }
     }
@@ -340,8 +354,27 @@ fn judge(case: &Case, out: &sched::RunOut, t: &Tiered, rep: &mut CaseReport) -> 
         let kind = if v.is_null() {
             HKind::Read(None)
         } else {
-            let a = v[0].as_u64().map(|x| x as u32);
+            let mut a = v[0].as_u64().map(|x| x as u32);
             let b = v[1].as_u64().map(|x| x as u32);
+            let is_same = |m: u32| samevec.get(&id).map_or(false, |s| s.contains(&m));
+            if a == Some(SAME) {
+                match b {
+                    // same-vector writes carry their version in the metadata only
+                    Some(m) if is_same(m) => a = Some(m),
+                    Some(m) => {
+                        return Err(Failure::new("torn_read", format!("{} on id {} returned the fixed vector of a same-vector write together with the metadata of version {} (a different-vector write)", who, id, m)).with_sig(json!({"kind": "torn_read"})));
+                    }
+                    None => {
+                        // vector-only read of the fixed vector: it only proves presence
+                        per_id.entry(id).or_default().push(HOp { call, ret, kind: HKind::Exists(true), who });
+                        return Ok(());
+                    }
+                }
+            } else if let (Some(av), Some(m)) = (a, b) {
+                if is_same(m) && av != m {
+                    return Err(Failure::new("torn_read", format!("{} on id {} returned the vector of version {} together with the metadata of same-vector write {}", who, id, av, m)).with_sig(json!({"kind": "torn_read"})));
+                }
+            }
             if let (Some(a), Some(b)) = (a, b) {
                 if a != b {
                     return Err(Failure::new("torn_read", format!("{} on id {} returned the vector of version {} together with the metadata of version {}", who, id, a, b)).with_sig(json!({"kind": "torn_read"})));
@@ -463,7 +496,7 @@ impl Prop for C05 {
         80
     }
     fn rule(&self) -> String {
-        "pairs: every ordered pair of single-operation programs (10 operations x 2 ids each side) x 5 cache strategies x 3 engine shapes x every single-preemption schedule; programs: 2-3 threads x 1-3 operations x 1-4 generated preemptions; non-trivial = at least one write or delete overlaps (in real time) another operation on the same id; distinct = hash of decoded case".into()
+        "pairs: every ordered pair of single-operation programs (11 operations x 2 ids each side) x 5 cache strategies x 3 engine shapes x every single-preemption schedule; programs: 2-3 threads x 1-3 operations x 1-4 generated preemptions; non-trivial = at least one write or delete overlaps (in real time) another operation on the same id; distinct = hash of decoded case".into()
     }
     fn decode(&self, raw: &Raw, _tier: Tier) -> Case {
         let mut t = Tape::new(&raw.head);
@@ -478,7 +511,7 @@ impl Prop for C05 {
         let mut threads: Vec<Vec<(OpK, u8)>> = vec![vec![]; nthreads];
         for (i, c) in raw.chunks.iter().enumerate() {
             let mut t = Tape::new(c);
-            let op = OPS[t.weighted(&[6, 4, 3, 4, 2, 2, 2, 1, 1, 2])];
+            let op = OPS[t.weighted(&[6, 4, 3, 4, 2, 2, 2, 1, 1, 2, 4])];
             let sel = if t.chance(40) { 1 - focus } else { focus };
             threads[i % nthreads].push((op, sel));
         }
